@@ -264,4 +264,12 @@ example :
     s.qreq = true ∧ s.quit = true ∧ s.phase = .entered := by
   decide
 
+open MuduoVerif.Pool in
+/-- the pool: three workers, seven calls wrap twice; hash 4 picks worker 1 whatever the cursor is; no workers → base -/
+example :
+    nextSeq (start 3) 7 = [.worker 0, .worker 1, .worker 2, .worker 0, .worker 1, .worker 2, .worker 0] ∧
+    getLoopForHash (afterNext (start 3) 5) 4 = .worker 1 ∧ nextSeq (start 0) 2 = [.base, .base] ∧
+    getAllLoops (start 0) = [.base] := by
+  decide
+
 end MuduoVerif.C05
